@@ -271,6 +271,10 @@ def plan(tier):
                                'set': p['binary'], 'ilo': a, 'ihi': b})
     for route in ('call', 'lit', 'ref'):
         shards.append({'fam': 'fact', 'route': route})
+    allfn = UNARY + ('POWER', 'ATAN2', 'MOD') + ROUNDING + ('FACT',)
+    for i in range(0, len(allfn), 4):
+        shards.append({'fam': 'after', 'fns': list(allfn[i:i + 4]),
+                       'weight': 5})
     return shards
 
 
@@ -498,6 +502,9 @@ def run_case(ctx, fam, fn, args, route, extra=()):
 
 
 def replay(inputs, ctx):
+    if inputs['fam'] == 'after':
+        shard_after(inputs, ctx)
+        return
     run_case(ctx, inputs['fam'], inputs['fn'], tuple(inputs['args']),
              inputs['route'], tuple(inputs.get('extra', ())))
 
@@ -682,7 +689,76 @@ def shard_fact(sh, ctx):
         run_case(ctx, 'fact', 'LOG', (x,), route, ('base:default',))
 
 
-FAMILIES = {'round': shard_round, 'ties': shard_ties,
+# -- what a call leaves behind ---------------------------------------------------
+# A function's answer depends on its arguments, not on which function was
+# asked before with an argument at the edge of its domain (numpy's error mode,
+# a memo in which 0.0 and -0.0 are one key ...).  Each sequence runs in a fresh
+# interpreter: the openers of one function, then the probes; the probes alone
+# in another fresh interpreter are the reference.
+AFTER_EDGE = (1e308, -1e308, 711.0, -711.0, -0.0, 0.0, 0, 1e-320, 2.0, -1)
+AFTER_PROBES = (
+    ('EXP', (710,)), ('EXP', (-750,)), ('EXP', (709,)), ('DEGREES', (1e308,)),
+    ('COSH', (711,)), ('SINH', (-711,)), ('POWER', (10, 400)),
+    ('POWER', (2, 0.5)), ('POWER', (-8, 1 / 3)), ('FACT', (171,)),
+    ('SQRT', (-1,)), ('LN', (0,)), ('LOG10', (0,)), ('LOG', (8, 1)),
+    ('MOD', (5, 0)), ('MOD', (-7, 3)), ('ACOS', (2,)), ('ATANH', (1,)),
+    ('ATAN2', (-1.0, 0.0)), ('ATAN2', (-1.0, -0.0)), ('ATAN2', (0.0, -1.0)),
+    ('ATAN2', (-1, 0)), ('ROUND', (2.675, 2)), ('ROUND', (-0.4, 0)),
+    ('ROUNDDOWN', (-0.4, 0)), ('CEILING', (-0.4, 1)), ('INT', (-0.5,)),
+    ('TAN', (1.5707963267949,)), ('SIN', (1e22,)), ('RADIANS', (1e308,)),
+    ('EVEN', (1e308,)), ('FLOOR', (1e308, 3)), ('TRUNC', (1e308, -5)),
+)
+
+
+def _fresh_calls(seq):
+    import json
+    import os
+    import subprocess
+    import sys
+    root = os.path.dirname(os.path.dirname(os.path.dirname(
+        os.path.abspath(__file__))))
+    p = subprocess.run(
+        [sys.executable, '-W', 'ignore', '-m', 'xlmc.checks.c18_proc',
+         json.dumps(seq)],
+        cwd=root, stdout=subprocess.PIPE, stderr=subprocess.DEVNULL,
+        text=True, timeout=300)
+    if p.returncode != 0 or not p.stdout.strip():
+        return None
+    return json.loads(p.stdout.strip().splitlines()[-1])
+
+
+def after_openers(fn):
+    if fn in ('POWER', 'ATAN2', 'MOD', 'LOG'):
+        return [[fn, [a, b]] for a in AFTER_EDGE[:6] for b in (-0.0, 0.5, 400)]
+    if fn in ROUND4 + ('CEILING', 'FLOOR'):
+        return [[fn, [a, d]] for a in AFTER_EDGE for d in (0, -300, 1)]
+    return [[fn, [a]] for a in AFTER_EDGE]
+
+
+def shard_after(sh, ctx):
+    probes = [[fn, list(args)] for fn, args in AFTER_PROBES]
+    base = _fresh_calls(probes)
+    if base is None:
+        from .. import runner
+        raise runner.HarnessError('c18_proc failed (C16 after)')
+    for fn in sh['fns']:
+        openers = after_openers(fn)
+        res = _fresh_calls(openers + probes)
+        tags = ['family:after-edge-call', 'opener:' + fn]
+        inputs = {'fam': 'after', 'fns': [fn]}
+        if res is None:
+            ctx.fail('C16/after/%s/process' % fn, tags, inputs,
+                     'sequence runs', 'process failed')
+            continue
+        for (pf, pa), got, want in zip(AFTER_PROBES, res[len(openers):],
+                                       base):
+            ctx.check('C16/after/%s/%s%r' % (fn, pf, tuple(pa)), got, want,
+                      tags + ['fn:' + pf], inputs, True,
+                      note='fresh process: %s at the edges of its domain, '
+                      'then this call' % fn)
+
+
+FAMILIES = {'after': shard_after, 'round': shard_round, 'ties': shard_ties,
             'extreme': shard_extreme, 'cf': shard_cf,
             'cf-mult': shard_cf_mult, 'unary': shard_unary,
             'bounds': shard_bounds, 'binary': shard_binary,
